@@ -2,7 +2,8 @@ import ast
 import functools
 import inspect
 import re
-from collections.abc import Mapping, MutableMapping
+from collections import deque
+from collections.abc import Iterator, Mapping, MutableMapping
 from typing import (
     TYPE_CHECKING,
     Any,
@@ -144,8 +145,8 @@ def stateful_eval(
     # (every such node is kept: the same call may occur more than once in an
     # expression, and each occurrence must be given its recorded state)
     stateful_nodes: list[tuple[str, ast.Call]] = []
-    for node in ast.walk(code):
-        if _is_stateful_transform(node, env):
+    for node, bound in _walk_with_bound_names(code):
+        if _is_stateful_transform(node, env, bound):
             # State is keyed by the code as the user wrote it (that is, with
             # any sanitized variable names restored), so that keys neither
             # depend on the aliases chosen nor collide when different names
@@ -247,7 +248,61 @@ class _NestedScopeGlobals(dict):  # type: ignore[type-arg]
         return self.__namespace[key]
 
 
-def _is_stateful_transform(node: ast.AST, env: Mapping) -> bool:
+def _walk_with_bound_names(
+    node: ast.AST,
+) -> Iterator[tuple[ast.AST, frozenset[str]]]:
+    """
+    Yield every node below (and including) `node`, in the order of `ast.walk`,
+    together with the names that are bound locally at that node (the parameters
+    of enclosing lambdas and the targets of enclosing comprehensions).
+    """
+    todo: deque[tuple[ast.AST, frozenset[str], frozenset[str]]] = deque(
+        [(node, frozenset(), frozenset())]
+    )
+    while todo:
+        # `outer` is only meaningful for `ast.comprehension` nodes: the names
+        # bound where their iterable is evaluated.
+        node, bound, outer = todo.popleft()
+        yield node, bound
+        if isinstance(node, ast.Lambda):
+            args = node.args
+            params = {
+                arg.arg
+                for arg in (
+                    *args.posonlyargs,
+                    *args.args,
+                    args.vararg,
+                    *args.kwonlyargs,
+                    args.kwarg,
+                )
+                if arg is not None
+            }
+            todo.append((args, bound, bound))
+            todo.append((node.body, bound | params, bound))
+        elif isinstance(
+            node, (ast.ListComp, ast.SetComp, ast.DictComp, ast.GeneratorExp)
+        ):
+            inner = bound | {
+                target.id
+                for generator in node.generators
+                for target in ast.walk(generator.target)
+                if isinstance(target, ast.Name) and isinstance(target.ctx, ast.Store)
+            }
+            for child in ast.iter_child_nodes(node):
+                if child is node.generators[0]:
+                    todo.append((child, inner, bound))
+                else:
+                    todo.append((child, inner, inner))
+        elif isinstance(node, ast.comprehension):
+            for child in ast.iter_child_nodes(node):
+                todo.append((child, outer if child is node.iter else bound, bound))
+        else:
+            todo.extend((child, bound, bound) for child in ast.iter_child_nodes(node))
+
+
+def _is_stateful_transform(
+    node: ast.AST, env: Mapping, bound: frozenset[str] = frozenset()
+) -> bool:
     """
     Check whether a given ast.Call node enacts a stateful transform given
     the available symbols in `env`.
@@ -256,6 +311,10 @@ def _is_stateful_transform(node: ast.AST, env: Mapping) -> bool:
         node: The AST node in question.
         env: The current environment in which the node is evaluated. This is
             used to look up the function handle so it can be inspected.
+        bound: The names that are bound locally where the node is written. A
+            call target that mentions one of them cannot be looked up ahead of
+            the evaluation (whatever `env` holds under that name is not what
+            the target will be).
 
     Return:
         `True` if the node is a call node and the callable associated with the
@@ -264,8 +323,15 @@ def _is_stateful_transform(node: ast.AST, env: Mapping) -> bool:
     if not isinstance(node, ast.Call):
         return False
 
+    if any(
+        isinstance(name, ast.Name) and name.id in bound for name in ast.walk(node.func)
+    ):
+        return False
+
     try:
         func = eval(compile(format_expr(node.func), "", "eval"), {}, env)  # nosec; Get function handle (assuming it exists in env)
         return getattr(func, "__is_stateful_transform__", False)
-    except NameError:
+    except Exception:
+        # A target that cannot be evaluated ahead of time is not (known to be)
+        # a stateful transform; the evaluation proper reports any real error.
         return False
